@@ -34,6 +34,8 @@ CHECKS = {
     "C04": ("other", "DESIGN.md#c04", "Full decision tables, every branch explored: emu-sv over interaction type x eigenstates, PulserData's interaction-type branch, emu-mps create_impl over solver x noise x type x levels, make_H/update_H validation; accepted inputs are emulated with Pulser's Hamiltonian for symbolic parameters.", TECH_S, NOTE_S),
     "C05": ("other", "DESIGN.md#c05", "Bounded symbolic equivalence: for every sparsity pattern the control flow distinguishes and all real values of U, Omega, Delta, phi and a complex noise term, contract(make_H;update_H) equals the dense Hamiltonian, N<=4 (quick) / N<=5 d=2, N<=4 d=3 (thorough). Solver verdict over all values inside the bound, nothing outside it.", TECH_S, NOTE_S),
     "C06": ("other", "DESIGN.md#c06", "Bounded symbolic equivalence of RydbergHamiltonian.__mul__ and RydbergLindbladian.__matmul__ with the dense Hamiltonian / GKSL generator for all real drive values, symbolic jump operators and arbitrary complex inputs; both phase paths and both matmul paths; N<=3 (quick) / N<=4 (thorough).", TECH_S, NOTE_S),
+    "C07": ("other", "DESIGN.md#107-c07-c08-partial", "Part (the honesty half only): with the operator and torch.linalg.matrix_exp as stubs and symbolic tolerances, `converged`/`happy_breakdown` are reported exactly when an iteration met the residual-norm or error-estimate criterion, the public entry point raises exactly when not converged and returns no vector otherwise, and the returned vector is |v| sum_k exp(T)[k,0] q_k (dim<=3, <=3 iterations, Lanczos and Arnoldi). The accuracy bound (result = exp(A)v within 10*tol) is an analytic floating-point claim and is NOT decided.", TECH_M, NOTE_M),
+    "C08": ("other", "DESIGN.md#107-c07-c08-partial", "Part (bookkeeping only): with the operator and torch.linalg.eigh as stubs and symbolic tolerances: unit norm of the returned vector, returned energy is the lowest Ritz value of one projected problem, converged-without-breakdown implies reported residual < tolerance, restart/iteration accounting, the public entry point raises exactly when neither converged nor broke down. Variational bound, Rayleigh-quotient and residual identities are exact-Lanczos/LAPACK facts and are NOT decided.", TECH_M, NOTE_M),
     "C10": ("other", "DESIGN.md#c10", "Part: cutoff index, rank cap, discarded-weight budget (not lazier than allowed), kept = largest eigenvalues, preserve_norm factor, bond visiting order and caps, centre bookkeeping, for symbolic ascending spectra (k<=6) with eigh/qr as contract stubs. Orthonormality itself needs LAPACK and is outside.", TECH_S, NOTE_S),
     "C11": ("other", "DESIGN.md#c11", "Part: every QR/eigh-free MPS/MPO operation (add, scale, inner, overlap, norm of the centre, make, MPO.expect/add/rmul, from_operator_repr, from_state_amplitudes' key mapping, baths, traces) equals its dense counterpart for symbolic factors (N<=3, chi<=2, d=2/3) and leaves operands unchanged; expect_batch/correlation/apply on product states through a sound one-column QR stub.", TECH_S, NOTE_S),
     "C12": ("other", "DESIGN.md#c12", "Full within bounds: StateVector/DensityMatrix/DenseOperator/SparseOperator constructors and algebra equal their Kronecker / linear-algebra definitions for symbolic complex entries, forked basis strings and operator representations, N<=3 (amplitude placement to N=8); dense = sparse.", TECH_S, NOTE_S),
@@ -59,8 +61,6 @@ CHECKS = {
 }
 
 NOT_APPLICABLE = {
-    "C07": "Analytic error bound of Lanczos/Arnoldi with torch.linalg.matrix_exp in float64: neither the iteration's convergence nor matrix_exp is expressible in a decidable theory, and a bit-precise FP encoding of even one step is beyond the solvers available here.",
-    "C08": "Variational bound and residual of a restarted Lanczos using LAPACK eigh in floating point: same obstacle as C07 (LAPACK kernel + convergence of an FP iteration).",
     "C09": "DMRG ground-state quality depends on C08 and on sweep convergence in floating point; not encodable.",
     "C17": "Statistical convergence of trajectory averages; needs the RNG and the full numeric evolution. Its deterministic ingredients are decided under C05, C18, C24.",
     "C28": "Norm/energy conservation of the floating-point propagators (TDVP sweeps with Krylov steps and truncation); the exact-arithmetic ingredient (Hermiticity of H) is a lemma checked under C05/C06.",
